@@ -193,6 +193,24 @@ def model_check(module, cfg_name, wd, workers=8, timeout=900, expect_violation=N
     return r
 
 
+def apalache(module, wd, args, timeout=600, expect_error=False):
+    """Symbolic check with Apalache (integer-only specs).  Failure is a tool error (S1 guards the spec)."""
+    t0 = time.time()
+    out_dir = os.path.join(wd, "apalache")
+    os.makedirs(out_dir, exist_ok=True)
+    cmd = ["timeout", str(timeout), "apalache-mc", "check", "--out-dir=" + out_dir] + args + [os.path.join(SPEC, module)]
+    p = subprocess.run(cmd, cwd=wd, stdout=subprocess.PIPE, stderr=subprocess.STDOUT, text=True)
+    ok = "The outcome is: NoError" in p.stdout
+    shutil.rmtree(out_dir, ignore_errors=True)
+    if p.returncode == 124:
+        raise ToolError("apalache %s %s timed out" % (module, args))
+    if ok == expect_error:
+        log(p.stdout[-3000:])
+        raise ToolError("apalache %s %s: unexpected outcome" % (module, " ".join(args)))
+    log("[S1] apalache %s %s: %s, %.1fs" % (module, " ".join(args), "NoError" if ok else "error found (expected)", time.time() - t0))
+    return {"wall": time.time() - t0, "ok": ok}
+
+
 RE_VERDICT = re.compile(r'@@VERDICT\|([A-Z]+)\|(.*)\|(\d+)"?\s*$')
 RE_ACCEPT = re.compile(r'@@ACCEPT\|(\d+)\|(\d+)')
 
